@@ -354,6 +354,8 @@ def run(ctx):
                         cases.append((f, labels, srcs, ok, form, pos, mode, offv))
     ctx.bound("cross", "vectors x forms x positions x modes" if full else "primary vector x forms x positions x modes; other vectors x {top, fun, test} x {playground-run, sandboxed-test in test}")
 
+    if os.environ.get("GV_COUNT_ONLY"):      # development aid: size of the enumeration without running it
+        raise Machinery(f"count only: {len(cases) + len(controls)} processes")
     def do_case(i_case):
         i, (f, labels, srcs, ok, form, pos, mode, offv) = i_case
         d = os.path.join(root, f"case{i}")
